@@ -180,6 +180,13 @@ def run_logger1(ctx, binary, data, seed, chunk, pause_ms, n, paced=False, pre=b"
     day2 = datetime.date.today().isoformat()
     out = outbuf[0] if outbuf else b""
     fbytes, has = b"", False
+    if dates:
+        # (the date may have changed in that zone while the program ran)
+        u = datetime.datetime.utcnow()
+        after = [(u + datetime.timedelta(hours=h)).date().isoformat() for h in (14, 0, -12, -1)]
+        if dates[0] != after[[14, 0, -12, -1].index(offs[z])]:
+            day2 = "date changed in the program's zone"        # the run straddles its midnight: dropped like a run over ours
+        dates = dates + after
     for day in dates + [day1, day2]:
         fn = os.path.join(logdir, "rtcmlogger.%s.rtcm" % day)
         if os.path.exists(fn) and not os.path.islink(fn):      # (never read the /dev/full link: it is an endless source)
